@@ -137,7 +137,7 @@ def Gen.body (e : Env) : Gen → Prog
           | .cons (.int i) sl =>
             uintRange e.ft (UInt64.ofNat i.toNat) (UInt64.ofNat (n - 1)) false e.fuel fun j _ _ =>
               .ret (rAcc (.cons (.int (i + 1)) (Val.ofList (swapAt sl.toList i.toNat j.toNat))))
-          | _ => .ret rRej)
+          | _ => .ret (rAcc acc))   -- unreachable: the accumulator always has this shape
         (fun acc => match acc with | .cons _ sl => .ret sl | _ => .ret .nil)
         e.fuel {} (.cons (.int 0) (Val.ofList ((List.range n).map fun (i : Nat) => Val.int (Int.ofNat i))))
   | .custom body =>
